@@ -2,18 +2,19 @@
    a zero-valued divisor occurs, the simplifier model returns a CONSTANT (and, by
    SimplifierSem_proofs, the constant that denotes the value of the term). *)
 From Coq Require Import List ZArith Bool String Reals Lia Lra.
-From PySMT.core Require Import Syntax SyntaxLemmas PyPrims Types Sem.
+From PySMT.core Require Import Syntax SyntaxLemmas PyPrims PyPrimsLemmas Types Sem.
 From PySMT.models Require Import TypeChecker Oracles Ctors Simplifier.
 From PySMT.proofs Require Import Sets_proofs TypeChecker_proofs Simplifier_proofs SimplifierSem_proofs.
 Import ListNotations.
 Open Scope bool_scope.
 
-(* operators of the fragment that fold: everything of stages 1-2 except symbols, function
+(* operators of the fragment that fold: everything of stages 1-3 except symbols, function
    applications and quantifiers *)
 Definition cop (o : op) : bool :=
   match o with
   | OAnd | OOr | ONot | OImplies | OIff | OIte | OEquals
   | OPlus | OTimes | OMinus | OLe | OLt | OToReal | ODiv | OPow
+  | OBV _ _ | OBVRel _ | OBVToNat | OBVExtract _ _ _ | OBVRol _ _ | OBVRor _ _ | OBVZext _ _ | OBVSext _ _
   | OBoolC _ | OIntC _ | ORealC _ _ | OBVC _ _ | OStrC _ => true
   | _ => false
   end.
@@ -194,11 +195,241 @@ Proof.
     destruct (is_zero c); eauto.
 Qed.
 
+(* ------------------------------------------------------------------ bit-vector rules on constants *)
+Open Scope Z_scope.
+Definition bvconst (w : Z) (c : term) : Prop := exists z, c = TBVC z w /\ in_range w z.
+Lemma mk_bv_total w v : in_range w v -> mk_bv v w = Some (TBVC v w).
+Proof. intros [V0 V1]. unfold mk_bv. rewrite (proj2 (Z.ltb_ge v 0)) by lia. rewrite (proj2 (Z.leb_gt (2 ^ w) v)) by lia. reflexivity. Qed.
+Lemma bvconst_mk w v : in_range w v -> exists c, mk_bv v w = Some c /\ bvconst w c.
+Proof. intros R. exists (TBVC v w). split; [now apply mk_bv_total | exists v; auto]. Qed.
+Lemma bvconst_kconst w c : bvconst w c -> kconst c.
+Proof. intros (z & -> & _). eexists; split; [reflexivity | exact Logic.I]. Qed.
+Lemma bvconst_self w c : bvconst w c -> exists c', Some c = Some c' /\ bvconst w c'.
+Proof. eauto. Qed.
+Lemma zero_range w : 0 < w -> in_range w 0.
+Proof. intros. split; [lia | apply pow2_pos; lia]. Qed.
+Lemma mask_range w : 0 < w -> in_range w (2 ^ w - 1).
+Proof. intros. pose proof (pow2_pos w ltac:(lia)). split; lia. Qed.
+
+Ltac bvc_args := repeat match goal with H : bvconst _ _ |- _ => let z := fresh "z" in let R := fresh "R" in destruct H as (z & -> & R) end.
+Ltac bvc_done := first [ apply bvconst_mk | eapply bvconst_self; eexists; split; [reflexivity | assumption] ].
+
+Lemma c_bv_not w a : 0 < w -> bvconst w a -> exists c, r_bv_not w a = Some c /\ bvconst w c.
+Proof.
+  intros Hw (z & -> & Rz). unfold r_bv_not. cbn [bv_value top TBVC]. unfold py_and, py_invert, mask.
+  rewrite (not_fold w z ltac:(lia) Rz). apply bvconst_mk. destruct Rz. pose proof (pow2_pos w ltac:(lia)). split; lia.
+Qed.
+Lemma c_bv_neg w a : 0 < w -> bvconst w a -> exists c, r_bv_neg w a = Some c /\ bvconst w c.
+Proof. intros Hw (z & -> & Rz). unfold r_bv_neg. cbn [bv_value top TBVC]. apply bvconst_mk. apply mod_range. lia. Qed.
+Lemma c_bv_and w a b : 0 < w -> bvconst w a -> bvconst w b -> exists c, r_bv_and w a b = Some c /\ bvconst w c.
+Proof.
+  intros Hw (z & -> & Rz) (z0 & -> & Rz0). unfold r_bv_and, mk_bvzero. cbn [bv_value top TBVC].
+  destruct (z =? 0); [apply bvconst_mk; now apply zero_range|].
+  destruct (z =? mask w); [eexists; split; [reflexivity | exists z0; auto]|].
+  apply bvconst_mk. now apply land_range.
+Qed.
+Lemma c_bv_or w a b : 0 < w -> bvconst w a -> bvconst w b -> exists c, r_bv_or w a b = Some c /\ bvconst w c.
+Proof.
+  intros Hw (z & -> & Rz) (z0 & -> & Rz0). unfold r_bv_or. cbn [bv_value top TBVC is_constant].
+  destruct (z =? 0); [eexists; split; [reflexivity | exists z0; auto]|].
+  destruct (z =? mask w); [apply bvconst_mk; now apply mask_range|].
+  apply bvconst_mk. now apply lor_range.
+Qed.
+Lemma c_bv_xor w a b : 0 < w -> bvconst w a -> bvconst w b -> exists c, r_bv_xor w a b = Some c /\ bvconst w c.
+Proof. intros Hw (z & -> & Rz) (z0 & -> & Rz0). unfold r_bv_xor. cbn [bv_value top TBVC]. apply bvconst_mk. now apply lxor_range. Qed.
+Lemma c_bv_add w a b : 0 < w -> bvconst w a -> bvconst w b -> exists c, r_bv_add w a b = Some c /\ bvconst w c.
+Proof.
+  intros Hw (z & -> & Rz) (z0 & -> & Rz0). unfold r_bv_add. cbn [bv_value top TBVC].
+  destruct (z =? 0); [eexists; split; [reflexivity | exists z0; auto]|]. apply bvconst_mk. apply mod_range. lia.
+Qed.
+Lemma c_bv_mul w a b : 0 < w -> bvconst w a -> bvconst w b -> exists c, r_bv_mul w a b = Some c /\ bvconst w c.
+Proof.
+  intros Hw (z & -> & Rz) (z0 & -> & Rz0). unfold r_bv_mul, mk_bvzero. cbn [bv_value top TBVC].
+  destruct (z =? 0); [apply bvconst_mk; now apply zero_range|].
+  destruct (z =? 1); [eexists; split; [reflexivity | exists z0; auto]|]. apply bvconst_mk. apply mod_range. lia.
+Qed.
+Lemma c_bv_udiv w a b : 0 < w -> bvconst w a -> bvconst w b -> exists c, r_bv_udiv w a b = Some c /\ bvconst w c.
+Proof.
+  intros Hw (z & -> & Rz) (z0 & -> & Rz0). unfold r_bv_udiv. cbn [bv_value top TBVC].
+  destruct (z0 =? 0); [apply bvconst_mk; now apply mask_range|].
+  destruct (z0 =? 1); [eexists; split; [reflexivity | exists z; auto]|]. apply bvconst_mk. apply mod_range. lia.
+Qed.
+Lemma c_bv_urem w a b : 0 < w -> bvconst w a -> bvconst w b -> exists c, r_bv_urem w a b = Some c /\ bvconst w c.
+Proof.
+  intros Hw (z & -> & Rz) (z0 & -> & Rz0). unfold r_bv_urem, mk_bvzero. cbn [bv_value top TBVC].
+  destruct (Z.eqb_spec z0 0); [eexists; split; [reflexivity | exists z; auto]|].
+  destruct (z0 =? 1); [apply bvconst_mk; now apply zero_range|].
+  apply bvconst_mk. destruct Rz as [A0 A1], Rz0 as [B0 B1]. pose proof (Z.mod_pos_bound z z0 ltac:(lia)). split; lia.
+Qed.
+Lemma c_bv_sub w a b : 0 < w -> bvconst w a -> bvconst w b -> exists c, r_bv_sub w a b = Some c /\ bvconst w c.
+Proof.
+  intros Hw (z & -> & Rz) (z0 & -> & Rz0). unfold r_bv_sub. cbn [bv_value top TBVC].
+  destruct (z0 =? 0); [eexists; split; [reflexivity | exists z; auto]|]. apply bvconst_mk. apply mod_range. lia.
+Qed.
+Lemma c_bv_shift k sh w a b : 0 < w -> bvconst w a -> bvconst w b -> exists c, r_bv_shift k sh a b = Some c /\ bvconst w c.
+Proof.
+  intros Hw (z & -> & Rz) (z0 & -> & Rz0). unfold r_bv_shift, mk_bvzero. cbn [bv_value top TBVC bv_width].
+  destruct (z0 =? 0); [eexists; split; [reflexivity | exists z; auto]|].
+  destruct (w <=? z0); [apply bvconst_mk; now apply zero_range|]. apply bvconst_mk. apply mod_range. lia.
+Qed.
+Lemma c_bv_concat wa wb a b : 0 < wa -> 0 < wb -> bvconst wa a -> bvconst wb b ->
+  exists c, r_bv_concat a b = Some c /\ bvconst (wa + wb) c.
+Proof.
+  intros Hwa Hwb (z & -> & Rz) (z0 & -> & Rz0). unfold r_bv_concat. cbn [top TBVC]. rewrite (Z.add_comm wb wa).
+  apply bvconst_mk. destruct Rz as [A0 A1], Rz0 as [B0 B1]. unfold in_range. rewrite Z.pow_add_r by lia. split; nia.
+Qed.
+Lemma c_bv_comp wa a b : bvconst wa a -> bvconst wa b -> exists c, r_bv_comp a b = Some c /\ bvconst 1 c.
+Proof.
+  intros (z & -> & Rz) (z0 & -> & Rz0). unfold r_bv_comp. cbn [is_bv_constant top TBVC andb].
+  destruct (term_eqb (TBVC z wa) (TBVC z0 wa)); apply bvconst_mk; unfold in_range; change (2 ^ 1) with 2; lia.
+Qed.
+Lemma c_neg_c w a : 0 < w -> bvconst w a -> exists c, neg_c a = Some c /\ bvconst w c.
+Proof. intros Hw Ha. unfold neg_c. destruct Ha as (z & -> & R). cbn [bv_width TBVC]. apply c_bv_neg; auto. exists z; auto. Qed.
+Lemma bvconst_width w c : bvconst w c -> bv_width c = w.
+Proof. intros (z & -> & _). reflexivity. Qed.
+Lemma bvconst_signed w c : bvconst w c -> exists s, bv_signed_value c = Some s.
+Proof. intros (z & -> & _). cbn. eauto. Qed.
+Lemma c_bv_sdiv w a b : 0 < w -> bvconst w a -> bvconst w b -> exists c, r_bv_sdiv a b = Some c /\ bvconst w c.
+Proof.
+  intros Hw Ha Hb. unfold r_bv_sdiv, Simplifier.bind.
+  destruct (bvconst_signed w a Ha) as [sa ->]. destruct (bvconst_signed w b Hb) as [sb ->].
+  destruct (c_neg_c w a Hw Ha) as (na & Ena & Hna). destruct (c_neg_c w b Hw Hb) as (nb & Enb & Hnb).
+  rewrite (bvconst_width w a Ha). rewrite Ena, Enb. rewrite (bvconst_width w na Hna).
+  destruct (negb (sa <? 0) && negb (sb <? 0)); [now apply c_bv_udiv|].
+  destruct ((sa <? 0) && negb (sb <? 0)).
+  { destruct (c_bv_udiv w na b Hw Hna Hb) as (d & -> & Hd). now apply c_neg_c. }
+  destruct (negb (sa <? 0) && (sb <? 0)).
+  { destruct (c_bv_udiv w a nb Hw Ha Hnb) as (d & -> & Hd). now apply c_neg_c. }
+  now apply c_bv_udiv.
+Qed.
+Lemma c_bv_srem w a b : 0 < w -> bvconst w a -> bvconst w b -> exists c, r_bv_srem a b = Some c /\ bvconst w c.
+Proof.
+  intros Hw Ha Hb. unfold r_bv_srem, Simplifier.bind.
+  destruct (bvconst_signed w a Ha) as [sa ->]. destruct (bvconst_signed w b Hb) as [sb ->].
+  destruct (c_neg_c w a Hw Ha) as (na & Ena & Hna). destruct (c_neg_c w b Hw Hb) as (nb & Enb & Hnb).
+  assert (Hl : exists l, (if sa <? 0 then neg_c a else Some a) = Some l /\ bvconst w l) by (destruct (sa <? 0); eauto).
+  assert (Hr : exists r, (if sb <? 0 then neg_c b else Some b) = Some r /\ bvconst w r) by (destruct (sb <? 0); eauto).
+  destruct Hl as (l & -> & Hl). destruct Hr as (r & -> & Hr). rewrite (bvconst_width w l Hl).
+  destruct (c_bv_urem w l r Hw Hl Hr) as (m & -> & Hm). destruct (sa <? 0); [now apply c_neg_c | eauto].
+Qed.
+Lemma c_bv_ashr w a b : 0 < w -> bvconst w a -> bvconst w b -> exists c, r_bv_ashr w a b = Some c /\ bvconst w c.
+Proof.
+  intros Hw Ha Hb. unfold r_bv_ashr, Simplifier.bind.
+  destruct (bvconst_signed w a Ha) as [sa ->].
+  destruct (c_bv_shift BLshr py_shr w a b Hw Ha Hb) as (ret & Eret & Hret). unfold r_bv_lshr. rewrite Eret.
+  destruct Hb as (rv & -> & [R0 R1]). cbn [bv_value top TBVC].
+  destruct (sa <? 0); [|eauto]. destruct Hret as (n & -> & [N0 N1]). cbn [bv_value top TBVC].
+  set (k := if rv <? w then rv else w). assert (Hk : 0 <= k <= w) by (unfold k; destruct (Z.ltb_spec rv w); lia).
+  (* what lshr returned is below 2^(w-k) *)
+  assert (Hn : n < 2 ^ (w - k)).
+  { destruct Ha as (x & -> & [X0 X1]). unfold r_bv_shift, mk_bvzero in Eret. cbn [bv_value top TBVC bv_width] in Eret.
+    assert (Hpw : 0 < 2 ^ w) by (apply pow2_pos; lia).
+    destruct (Z.eqb_spec rv 0) as [->|Hr0].
+    - inversion Eret; subst. unfold k. rewrite (proj2 (Z.ltb_lt 0 w) Hw). now rewrite Z.sub_0_r.
+    - destruct (Z.leb_spec w rv) as [Hge|Hlt].
+      + rewrite mk_bv_total in Eret by (now apply zero_range). inversion Eret; subst. apply pow2_pos. lia.
+      + unfold k. rewrite (proj2 (Z.ltb_lt rv w) Hlt).
+        unfold py_shr in Eret. rewrite Z.shiftr_div_pow2 in Eret by lia.
+        assert (Hq : 0 <= x / 2 ^ rv < 2 ^ (w - rv)).
+        { assert (0 < 2 ^ rv) by (apply pow2_pos; lia). split; [apply Z.div_pos; lia|]. apply Z.div_lt_upper_bound; [lia|].
+          rewrite <- Z.pow_add_r by lia. replace (rv + (w - rv)) with w by lia. lia. }
+        assert (Hle : 2 ^ (w - rv) <= 2 ^ w) by (apply Z.pow_le_mono_r; lia).
+        rewrite Z.mod_small in Eret by lia. rewrite mk_bv_total in Eret by (split; lia). inversion Eret; subst. lia. }
+  apply bvconst_mk. unfold zrange. replace (w - (w - k)) with k by lia.
+  rewrite (set_bits_range (w - k) n ltac:(lia) (conj N0 Hn) (Z.to_nat k)). rewrite Z2Nat.id by lia. replace (w - k + k) with w by lia.
+  assert (0 < 2 ^ (w - k)) by (apply pow2_pos; lia). assert (2 ^ (w - k) <= 2 ^ w) by (apply Z.pow_le_mono_r; lia). split; lia.
+Qed.
+(* bit-string operators *)
+Lemma mk_bv_bits_rev_total X w : X <> [] -> (w = None \/ w = Some (zlen X)) ->
+  exists c, mk_bv_bits (rev X) w = Some c /\ bvconst (zlen X) c.
+Proof.
+  intros HX Hw. unfold mk_bv_bits. rewrite (int_of_bits_rev X HX).
+  assert (Hl : zlen (rev X) = zlen X) by (unfold zlen; now rewrite rev_length). rewrite Hl.
+  assert (R : in_range (zlen X) (lsb_val X)) by (unfold in_range, zlen; apply lsb_val_range).
+  destruct Hw as [-> | ->]; [|rewrite Z.eqb_refl]; now apply bvconst_mk.
+Qed.
+Lemma bvconst_bits wa a : 0 < wa -> bvconst wa a -> exists v, a = TBVC v wa /\ in_range wa v /\
+  is_bv_constant a = true /\ bv_bin_str a = Some (bits_msb (Z.to_nat wa) v).
+Proof.
+  intros Hw (v & -> & R). exists v. repeat split; try apply R. cbn. f_equal. apply bin_str_fits; auto.
+Qed.
+Lemma c_bv_extract wa s e a : 0 < wa -> 0 <= s -> s <= e -> e < wa -> bvconst wa a ->
+  exists c, r_bv_extract s e a = Some c /\ bvconst (e - s + 1) c.
+Proof.
+  intros Hw Hs Hse He Ha. destruct (bvconst_bits wa a Hw Ha) as (v & -> & [V0 V1] & C & Hb).
+  unfold r_bv_extract. rewrite C, Hb. unfold Simplifier.bind, py_reverse. rewrite rev_bits_msb.
+  assert (HL : zlen (lsb_bits (Z.to_nat wa) v) = wa) by (unfold zlen; rewrite lsb_bits_length; apply Z2Nat.id; lia).
+  rewrite py_slice_in by (rewrite ?HL; lia).
+  assert (Hm1 : (Z.to_nat s <= Z.to_nat wa)%nat) by (apply Z2Nat.inj_le; lia).
+  assert (Hm2 : (Z.to_nat (e + 1 - s) <= Z.to_nat wa - Z.to_nat s)%nat) by (rewrite <- Z2Nat.inj_sub by lia; apply Z2Nat.inj_le; lia).
+  assert (Hm3 : (0 < Z.to_nat (e + 1 - s))%nat) by (apply (Z2Nat.inj_lt 0); lia).
+  rewrite lsb_bits_skip by (auto; lia). rewrite lsb_bits_first by exact Hm2.
+  set (X := lsb_bits (Z.to_nat (e + 1 - s)) (v / 2 ^ Z.of_nat (Z.to_nat s))).
+  assert (HX : X <> []). { intros H. apply (f_equal (@List.length bool)) in H. unfold X in H. rewrite lsb_bits_length in H. cbn in H. lia. }
+  assert (HzX : zlen X = e - s + 1) by (unfold zlen, X; rewrite lsb_bits_length, Z2Nat.id; lia).
+  destruct (mk_bv_bits_rev_total X (Some (e + 1 - s)) HX) as (c & Ec & Bc); [right; f_equal; lia|].
+  exists c. split; auto. now rewrite <- HzX.
+Qed.
+Lemma c_bv_ror w k a : 0 < w -> 0 <= k <= w -> bvconst w a -> exists c, r_bv_ror k a = Some c /\ bvconst w c.
+Proof.
+  intros Hw Hk Ha. destruct (bvconst_bits w a Hw Ha) as (v & -> & [V0 V1] & C & Hb).
+  unfold r_bv_ror. rewrite C, Hb. unfold Simplifier.bind, py_reverse. rewrite rev_bits_msb.
+  set (L := lsb_bits (Z.to_nat w) v).
+  assert (HL : zlen L = w) by (unfold zlen, L; rewrite lsb_bits_length; apply Z2Nat.id; lia).
+  set (X := py_slice L (Some k) None ++ py_slice L (Some 0) (Some k)).
+  assert (Hlen : zlen X = w).
+  { unfold X. rewrite py_slice_in, py_slice_from by (rewrite ?HL; lia). unfold zlen. rewrite app_length, skipn_length, firstn_length.
+    cbn [skipn Z.to_nat]. rewrite Z.sub_0_r. unfold zlen in HL. rewrite Nat.min_l by (apply Nat2Z.inj_le; rewrite Z2Nat.id; lia).
+    rewrite Nat2Z.inj_add, Nat2Z.inj_sub, Z2Nat.id by (try lia; apply Nat2Z.inj_le; rewrite Z2Nat.id; lia). lia. }
+  assert (HX : X <> []) by (intros H; rewrite H in Hlen; cbn in Hlen; lia).
+  destruct (mk_bv_bits_rev_total X None HX (or_introl eq_refl)) as (c & Ec & Bc). exists c. split; auto. now rewrite <- Hlen.
+Qed.
+Lemma c_bv_rol w k a : 0 < w -> 0 <= k <= w -> bvconst w a -> exists c, r_bv_rol k a = Some c /\ bvconst w c.
+Proof.
+  intros Hw Hk Ha. destruct (bvconst_bits w a Hw Ha) as (v & -> & [V0 V1] & C & Hb).
+  unfold r_bv_rol. rewrite C, Hb. unfold Simplifier.bind, py_reverse. rewrite rev_bits_msb.
+  set (L := lsb_bits (Z.to_nat w) v).
+  assert (HL : zlen L = w) by (unfold zlen, L; rewrite lsb_bits_length; apply Z2Nat.id; lia).
+  set (X := py_slice L (Some (- k)) None ++ py_slice L (Some 0) (Some (- k))).
+  assert (Hlen : zlen X = w).
+  { unfold X. destruct (Z.eq_dec k 0) as [->|Hk0].
+    - cbn [Z.opp]. rewrite py_slice_in, py_slice_from by (rewrite ?HL; lia). cbn [Z.to_nat Z.sub firstn skipn]. now rewrite app_nil_r.
+    - rewrite py_slice_neg_to, py_slice_neg_from by (rewrite HL; lia). rewrite HL. unfold zlen. rewrite app_length, skipn_length, firstn_length.
+      unfold zlen in HL. rewrite Nat.min_l by (apply Nat2Z.inj_le; rewrite Z2Nat.id; lia).
+      rewrite Nat2Z.inj_add, Nat2Z.inj_sub, Z2Nat.id by (try lia; apply Nat2Z.inj_le; rewrite Z2Nat.id; lia). lia. }
+  assert (HX : X <> []) by (intros H; rewrite H in Hlen; cbn in Hlen; lia).
+  destruct (mk_bv_bits_rev_total X None HX (or_introl eq_refl)) as (c & Ec & Bc). exists c. split; auto. now rewrite <- Hlen.
+Qed.
+Lemma c_bv_ext wa w k a : 0 < wa -> 0 <= k -> w = wa + k -> bvconst wa a ->
+  exists v, a = TBVC v wa /\ forall fl, exists c, mk_bv_bits (py_repeat [fl] k ++ bits_msb (Z.to_nat wa) v) (Some w) = Some c /\ bvconst w c.
+Proof.
+  intros Hw Hk Ew (v & -> & R). exists v. split; auto. intros fl.
+  set (L := py_repeat [fl] k ++ bits_msb (Z.to_nat wa) v).
+  assert (HzL : zlen L = w).
+  { unfold zlen, L. rewrite py_repeat_single, app_length, repeat_length, bits_msb_length. rewrite Nat2Z.inj_add, !Z2Nat.id by lia. lia. }
+  assert (HX : rev L <> []) by (intros H; apply (f_equal (@List.length bool)) in H; rewrite rev_length in H; unfold zlen in HzL; cbn in H; lia).
+  assert (Hzr : zlen (rev L) = w) by (unfold zlen in *; now rewrite rev_length).
+  destruct (mk_bv_bits_rev_total (rev L) (Some w) HX) as (c & Ec & Bc); [right; now rewrite Hzr|].
+  rewrite rev_involutive in Ec. exists c. split; auto. now rewrite <- Hzr.
+Qed.
+Close Scope Z_scope.
+
 (* ------------------------------------------------------------------ one node on constant arguments *)
 Lemma Forall_bconst l : Forall bterm l -> Forall kconst l -> Forall bconst l.
 Proof. intros H K. induction H; inversion K; subst; constructor; auto. now apply bterm_kconst_bconst. Qed.
 Lemma Forall_nconst t l : arith t -> Forall (nterm t) l -> Forall kconst l -> Forall (nconst t) l.
 Proof. intros Ht H K. induction H; inversion K; subst; constructor; auto. now apply nterm_kconst_nconst. Qed.
+
+Lemma bvterm_kconst_bvconst w c : bvterm w c -> kconst c -> bvconst w c.
+Proof.
+  intros [O Tc] (o & -> & Ho). destruct o; try contradiction; cbn in Tc; try discriminate. inversion Tc; subst.
+  apply okt_node in O. cbn in O. apply andb_true_iff in O. destruct O as [O H3]. apply andb_true_iff in O. destruct O as [H1 H2].
+  exists v. split; auto. split; [now apply Z.leb_le | now apply Z.ltb_lt].
+Qed.
+Lemma Forall_bvconst w l : Forall (bvterm w) l -> Forall kconst l -> Forall (bvconst w) l.
+Proof. intros H K. induction H; inversion K; subst; constructor; auto. now apply bvterm_kconst_bvconst. Qed.
+Lemma ex_kconst w (e : option term) : (exists c, e = Some c /\ bvconst w c) -> exists c, e = Some c /\ kconst c.
+Proof. intros (c & E & B). exists c. split; auto. eapply bvconst_kconst; eauto. Qed.
 
 Lemma bool_op_ty o cs ty : (o = OAnd \/ o = OOr \/ o = ONot \/ o = OImplies \/ o = OIff) ->
   tc (T o cs) = Some ty -> ty = TBool.
@@ -283,6 +514,134 @@ Proof.
     destruct (nterm_kconst_nconst TInt a (or_introl eq_refl) (conj Oa Ha) Ka) as [[_ (z & ->)]|[E _]]; [|discriminate E].
     eexists; split; [reflexivity|]. apply mk_real_kconst.
   - (* bvc *) pose proof (const_no_args _ _ _ Htc Logic.I) as ->. eexists; split; [reflexivity|]. eexists; split; [reflexivity | exact Logic.I].
+  - (* bv operators *)
+    apply andb_true_iff in Hn. destruct Hn as [Hw Hk]. apply Z.ltb_lt in Hw.
+    destruct k; try discriminate Hk.
+    + destruct (bv_args_generic BNot w cs ty Logic.I Hok Htc) as [_ F]. destruct cs as [|a [|? ?]]; try discriminate.
+      pose proof (Forall_bvconst w _ F K) as B. inversion B as [|? ? Ba _]; subst. apply (ex_kconst w). now apply c_bv_not.
+    + destruct (bv_args_generic BAnd w cs ty Logic.I Hok Htc) as [_ F]. destruct cs as [|a [|b [|? ?]]]; try discriminate.
+      pose proof (Forall_bvconst w _ F K) as B. inversion B as [|? ? Ba B']; subst. inversion B' as [|? ? Bb _]; subst.
+      unfold bin. apply (ex_kconst w). now apply c_bv_and.
+    + destruct (bv_args_generic BOr w cs ty Logic.I Hok Htc) as [_ F]. destruct cs as [|a [|b [|? ?]]]; try discriminate.
+      pose proof (Forall_bvconst w _ F K) as B. inversion B as [|? ? Ba B']; subst. inversion B' as [|? ? Bb _]; subst.
+      unfold bin. apply (ex_kconst w). now apply c_bv_or.
+    + destruct (bv_args_generic BXor w cs ty Logic.I Hok Htc) as [_ F]. destruct cs as [|a [|b [|? ?]]]; try discriminate.
+      pose proof (Forall_bvconst w _ F K) as B. inversion B as [|? ? Ba B']; subst. inversion B' as [|? ? Bb _]; subst.
+      unfold bin. apply (ex_kconst w). now apply c_bv_xor.
+    + (* concat *)
+      destruct cs as [|a [|b [|? ?]]]; try discriminate.
+      destruct (bv_args_pair _ a b ty Hok Htc) as (ta & tb & Oa & Ob & Ta & Tb & Hr2).
+      cbn in Hr2. destruct ta as [| | | |wa| | |]; try discriminate. destruct tb as [| | | |wb| | |]; try discriminate.
+      inversion K as [|? ? Ka K']; subst. inversion K' as [|? ? Kb _]; subst.
+      pose proof (bvterm_kconst_bvconst wa a (conj Oa Ta) Ka) as Ba. pose proof (bvterm_kconst_bvconst wb b (conj Ob Tb) Kb) as Bb.
+      assert (Hwa : (0 < wa)%Z) by (destruct Ba as (z & -> & _); now apply (bvc_pos z)).
+      assert (Hwb : (0 < wb)%Z) by (destruct Bb as (z & -> & _); now apply (bvc_pos z)).
+      apply (ex_kconst (wa + wb)). now apply c_bv_concat.
+    + destruct (bv_args_generic BNeg w cs ty Logic.I Hok Htc) as [_ F]. destruct cs as [|a [|? ?]]; try discriminate.
+      pose proof (Forall_bvconst w _ F K) as B. inversion B as [|? ? Ba _]; subst. apply (ex_kconst w). now apply c_bv_neg.
+    + destruct (bv_args_generic BAdd w cs ty Logic.I Hok Htc) as [_ F]. destruct cs as [|a [|b [|? ?]]]; try discriminate.
+      pose proof (Forall_bvconst w _ F K) as B. inversion B as [|? ? Ba B']; subst. inversion B' as [|? ? Bb _]; subst.
+      unfold bin. apply (ex_kconst w). now apply c_bv_add.
+    + destruct (bv_args_generic BSub w cs ty Logic.I Hok Htc) as [_ F]. destruct cs as [|a [|b [|? ?]]]; try discriminate.
+      pose proof (Forall_bvconst w _ F K) as B. inversion B as [|? ? Ba B']; subst. inversion B' as [|? ? Bb _]; subst.
+      unfold bin. apply (ex_kconst w). now apply c_bv_sub.
+    + destruct (bv_args_generic BMul w cs ty Logic.I Hok Htc) as [_ F]. destruct cs as [|a [|b [|? ?]]]; try discriminate.
+      pose proof (Forall_bvconst w _ F K) as B. inversion B as [|? ? Ba B']; subst. inversion B' as [|? ? Bb _]; subst.
+      unfold bin. apply (ex_kconst w). now apply c_bv_mul.
+    + destruct (bv_args_generic BUdiv w cs ty Logic.I Hok Htc) as [_ F]. destruct cs as [|a [|b [|? ?]]]; try discriminate.
+      pose proof (Forall_bvconst w _ F K) as B. inversion B as [|? ? Ba B']; subst. inversion B' as [|? ? Bb _]; subst.
+      unfold bin. apply (ex_kconst w). now apply c_bv_udiv.
+    + destruct (bv_args_generic BUrem w cs ty Logic.I Hok Htc) as [_ F]. destruct cs as [|a [|b [|? ?]]]; try discriminate.
+      pose proof (Forall_bvconst w _ F K) as B. inversion B as [|? ? Ba B']; subst. inversion B' as [|? ? Bb _]; subst.
+      unfold bin. apply (ex_kconst w). now apply c_bv_urem.
+    + destruct (bv_args_generic BLshl w cs ty Logic.I Hok Htc) as [_ F]. destruct cs as [|a [|b [|? ?]]]; try discriminate.
+      pose proof (Forall_bvconst w _ F K) as B. inversion B as [|? ? Ba B']; subst. inversion B' as [|? ? Bb _]; subst.
+      unfold bin. apply (ex_kconst w). now apply (c_bv_shift BLshl py_shl).
+    + destruct (bv_args_generic BLshr w cs ty Logic.I Hok Htc) as [_ F]. destruct cs as [|a [|b [|? ?]]]; try discriminate.
+      pose proof (Forall_bvconst w _ F K) as B. inversion B as [|? ? Ba B']; subst. inversion B' as [|? ? Bb _]; subst.
+      unfold bin. apply (ex_kconst w). now apply (c_bv_shift BLshr py_shr).
+    + (* comp *)
+      destruct cs as [|a [|b [|? ?]]]; try discriminate. unfold bin.
+      destruct (bv_args_pair _ a b ty Hok Htc) as (ta & tb & Oa & Ob & Ta & Tb & Hr2).
+      cbn in Hr2. destruct (ty_eqb ta tb && is_bv ta) eqn:Et; [|discriminate].
+      apply andb_true_iff in Et. destruct Et as [E1 E2]. apply ty_eqb_eq in E1. subst tb. destruct ta as [| | | |wa| | |]; try discriminate.
+      inversion K as [|? ? Ka K']; subst. inversion K' as [|? ? Kb _]; subst.
+      apply (ex_kconst 1). apply (c_bv_comp wa); now apply bvterm_kconst_bvconst.
+    + destruct (bv_args_generic BSdiv w cs ty Logic.I Hok Htc) as [_ F]. destruct cs as [|a [|b [|? ?]]]; try discriminate.
+      pose proof (Forall_bvconst w _ F K) as B. inversion B as [|? ? Ba B']; subst. inversion B' as [|? ? Bb _]; subst.
+      unfold bin. apply (ex_kconst w). now apply c_bv_sdiv.
+    + destruct (bv_args_generic BSrem w cs ty Logic.I Hok Htc) as [_ F]. destruct cs as [|a [|b [|? ?]]]; try discriminate.
+      pose proof (Forall_bvconst w _ F K) as B. inversion B as [|? ? Ba B']; subst. inversion B' as [|? ? Bb _]; subst.
+      unfold bin. apply (ex_kconst w). now apply c_bv_srem.
+    + destruct (bv_args_generic BAshr w cs ty Logic.I Hok Htc) as [_ F]. destruct cs as [|a [|b [|? ?]]]; try discriminate.
+      pose proof (Forall_bvconst w _ F K) as B. inversion B as [|? ? Ba B']; subst. inversion B' as [|? ? Bb _]; subst.
+      unfold bin. apply (ex_kconst w). now apply c_bv_ashr.
+  - (* bv relations *)
+    destruct cs as [|a [|b [|? ?]]]; try discriminate.
+    destruct (bv_args_pair _ a b ty Hok Htc) as (ta & tb & Oa & Ob & Ta & Tb & Hr2).
+    cbn in Hr2. destruct ta as [| | | |wa| | |]; try discriminate. destruct tb as [| | | |wb| | |]; try discriminate.
+    cbn in Hr2. destruct (Z.eqb_spec wa wb) as [<-|]; [|discriminate].
+    inversion K as [|? ? Ka K']; subst. inversion K' as [|? ? Kb _]; subst.
+    destruct (bvterm_kconst_bvconst wa a (conj Oa Ta) Ka) as (x & -> & _). destruct (bvterm_kconst_bvconst wa b (conj Ob Tb) Kb) as (y & -> & _).
+    destruct k; cbn.
+    + unfold r_bv_ult. cbn [bv_value top TBVC]. destruct (term_eqb (TBVC x wa) (TBVC y wa)); [eexists; split; [reflexivity | apply mk_bool_kconst]|].
+      destruct (y =? 0)%Z; eexists; (split; [reflexivity|]); apply mk_bool_kconst.
+    + unfold r_bv_ule. cbn [bv_value top TBVC]. destruct (term_eqb (TBVC x wa) (TBVC y wa)); [eexists; split; [reflexivity | apply mk_bool_kconst]|].
+      destruct (x =? 0)%Z; eexists; (split; [reflexivity|]); apply mk_bool_kconst.
+    + unfold r_bv_scmp. cbn [bv_signed_value top TBVC]. eexists; split; [reflexivity | apply mk_bool_kconst].
+    + unfold r_bv_scmp. cbn [bv_signed_value top TBVC]. eexists; split; [reflexivity | apply mk_bool_kconst].
+  - (* extract *)
+    destruct cs as [|a [|? ?]]; try discriminate.
+    destruct (tc_inv _ _ _ Htc) as (tys & Ht & Hr). pose proof (tcs_Forall2 _ _ Ht) as F2.
+    inversion F2 as [|? ta ? ? Ha F2']; subst. inversion F2'; subst. inversion Fa as [|? ? Oa _]; subst. inversion K as [|? ? Ka _]; subst.
+    apply andb_true_iff in Hn. destruct Hn as [Hn Hse]. apply andb_true_iff in Hn. destruct Hn as [_ Hs0]. apply Z.leb_le in Hse, Hs0.
+    cbn in Hr. destruct ta as [| | | |wa| | |]; try discriminate.
+    destruct (Z.geb_spec s wa); [discriminate|]. destruct (Z.geb_spec e wa); [discriminate|].
+    pose proof (bvterm_kconst_bvconst wa a (conj Oa Ha) Ka) as Ba.
+    apply (ex_kconst (e - s + 1)). apply (c_bv_extract wa); auto; lia.
+  - (* rol *)
+    destruct cs as [|a [|? ?]]; try discriminate.
+    destruct (tc_inv _ _ _ Htc) as (tys & Ht & Hr). pose proof (tcs_Forall2 _ _ Ht) as F2.
+    inversion F2 as [|? ta ? ? Ha F2']; subst. inversion F2'; subst. inversion Fa as [|? ? Oa _]; subst. inversion K as [|? ? Ka _]; subst.
+    apply andb_true_iff in Hn. destruct Hn as [_ Hw]. apply Z.ltb_lt in Hw.
+    cbn in Hr. destruct (Z.ltb_spec w k); [discriminate|]. destruct (w <? 0)%Z; [discriminate|]. destruct (Z.ltb_spec k 0); [discriminate|]. cbn [orb] in Hr.
+    destruct ta as [| | | |wa| | |]; try discriminate. destruct (Z.eqb_spec w wa) as [<-|]; [|discriminate].
+    pose proof (bvterm_kconst_bvconst w a (conj Oa Ha) Ka) as Ba.
+    apply (ex_kconst w). apply c_bv_rol; auto; lia.
+  - (* ror *)
+    destruct cs as [|a [|? ?]]; try discriminate.
+    destruct (tc_inv _ _ _ Htc) as (tys & Ht & Hr). pose proof (tcs_Forall2 _ _ Ht) as F2.
+    inversion F2 as [|? ta ? ? Ha F2']; subst. inversion F2'; subst. inversion Fa as [|? ? Oa _]; subst. inversion K as [|? ? Ka _]; subst.
+    apply andb_true_iff in Hn. destruct Hn as [_ Hw]. apply Z.ltb_lt in Hw.
+    cbn in Hr. destruct (Z.ltb_spec w k); [discriminate|]. destruct (w <? 0)%Z; [discriminate|]. destruct (Z.ltb_spec k 0); [discriminate|]. cbn [orb] in Hr.
+    destruct ta as [| | | |wa| | |]; try discriminate. destruct (Z.eqb_spec w wa) as [<-|]; [|discriminate].
+    pose proof (bvterm_kconst_bvconst w a (conj Oa Ha) Ka) as Ba.
+    apply (ex_kconst w). apply c_bv_ror; auto; lia.
+  - (* zext *)
+    destruct cs as [|a [|? ?]]; try discriminate.
+    destruct (tc_inv _ _ _ Htc) as (tys & Ht & Hr). pose proof (tcs_Forall2 _ _ Ht) as F2.
+    inversion F2 as [|? ta ? ? Ha F2']; subst. inversion F2'; subst. inversion Fa as [|? ? Oa _]; subst. inversion K as [|? ? Ka _]; subst.
+    cbn in Hr. destruct ta as [| | | |wa| | |]; try discriminate.
+    destruct (Z.ltb_spec w wa); [discriminate|]. destruct (Z.ltb_spec w 0); [discriminate|].
+    apply Z.eqb_eq in Hn. rewrite (bv_width_ok a wa Oa Ha) in Hn. pose proof (bvterm_pos a wa Oa Ha) as Hwa.
+    pose proof (bvterm_kconst_bvconst wa a (conj Oa Ha) Ka) as Ba.
+    destruct (c_bv_ext wa w k a Hwa ltac:(lia) Hn Ba) as (v & -> & Hall). destruct (Hall false) as (c & Ec & Bc).
+    apply (ex_kconst w). exists c. split; auto. unfold r_bv_zext. cbn [is_bv_constant top TBVC bv_bin_str Simplifier.bind].
+    destruct Ba as (v' & Ev & Rv). inversion Ev; subst v'. cbn. rewrite bin_str_fits by (try lia; apply Rv). exact Ec.
+  - (* sext *)
+    destruct cs as [|a [|? ?]]; try discriminate.
+    destruct (tc_inv _ _ _ Htc) as (tys & Ht & Hr). pose proof (tcs_Forall2 _ _ Ht) as F2.
+    inversion F2 as [|? ta ? ? Ha F2']; subst. inversion F2'; subst. inversion Fa as [|? ? Oa _]; subst. inversion K as [|? ? Ka _]; subst.
+    cbn in Hr. destruct ta as [| | | |wa| | |]; try discriminate.
+    destruct (Z.ltb_spec w wa); [discriminate|]. destruct (Z.ltb_spec w 0); [discriminate|].
+    apply Z.eqb_eq in Hn. rewrite (bv_width_ok a wa Oa Ha) in Hn. pose proof (bvterm_pos a wa Oa Ha) as Hwa.
+    pose proof (bvterm_kconst_bvconst wa a (conj Oa Ha) Ka) as Ba.
+    destruct (c_bv_ext wa w k a Hwa ltac:(lia) Hn Ba) as (v & -> & Hall).
+    destruct Ba as (v' & Ev & Rv). inversion Ev; subst v'.
+    unfold r_bv_sext. cbn. rewrite bin_str_fits by (try lia; apply Rv).
+    destruct (bits_msb (Z.to_nat wa) v) as [|f bits] eqn:Eb.
+    { apply (f_equal (@List.length bool)) in Eb. rewrite bits_msb_length in Eb. cbn in Eb. lia. }
+    destruct (Hall f) as (c & Ec & Bc). apply (ex_kconst w). exists c. split; auto.
   - (* div *)
     destruct (nterm_args ODiv ty cs (or_intror (or_intror (or_intror eq_refl))) (conj Hok Htc)) as [Har F].
     destruct cs as [|a [|b [|? ?]]]; try discriminate. pose proof (Forall_nconst ty _ Har F K) as B.
@@ -311,6 +670,9 @@ Proof.
       { apply orb_true_iff. right. unfold fr_leb. cbn. apply Z.leb_le. lia. }
       rewrite Hc2. cbn [fr_is_int snd fst Z.eqb]. unfold Simplifier.bind, fr_pow_int. rewrite (proj2 (Z.leb_le 0 m) Hm).
       eexists; split; [reflexivity|]. apply mk_real_kconst.
+  - (* bv2nat *)
+    destruct cs as [|a [|? ?]]; try discriminate. inversion K as [|? ? (o & -> & Ho) _]; subst.
+    destruct o; try contradiction; try (cbn in Htc; discriminate). cbn. eexists; split; [reflexivity | apply mk_int_kconst].
 Qed.
 
 (* ------------------------------------------------------------------ the simplifier *)
@@ -360,10 +722,17 @@ Proof.
   rewrite simplify_opt_unfold, Em.
   destruct (children_ok ora I Hwf args cs tys F2 Fa Ht) as [Fc Tcs].
   assert (Hok' : okt (T o cs) = true).
-  { apply okt_intro; auto. destruct (op_eqb o OPow) eqn:Eo.
-    - apply op_eqb_eq in Eo. subst o. eapply ok_node_pow; eauto.
-    - rewrite <- (ok_node_length o args cs); auto; [|eapply Forall2_length_eq; eauto].
-      destruct o; try exact Logic.I. discriminate Eo. }
+  { apply okt_intro; auto. destruct (len_op o) eqn:Eo.
+    - rewrite <- (ok_node_length o args cs); auto. eapply Forall2_length_eq; eauto.
+    - assert (F2' : Forall2 (fun a a' => okt a' = true /\ tc a' = tc a) args cs).
+      { clear - F2 Fa Ht Hwf. revert tys Ht Fa. induction F2 as [|a c l l' Ha Hl IHl]; intros tys Ht Fa; constructor.
+        - inversion Fa; subst. cbn in Ht. destruct (tc a) as [ta|] eqn:Ta; [|discriminate].
+          destruct (simplify_sound_stages ora a I ta c H1 Ta Hwf Ha) as [[O Tc] _]. split; auto.
+        - inversion Fa; subst. cbn in Ht. destruct (tc a); [|discriminate]. destruct (tcs l) eqn:Tl; [|discriminate]. eapply IHl; eauto. }
+      destruct o; try discriminate Eo.
+      + apply (ok_node_ext _ args cs); eauto.
+      + apply (ok_node_ext _ args cs); eauto.
+      + eapply ok_node_pow; eauto. }
   assert (Htc' : tc (T o cs) = Some ty) by (rewrite tc_tcs, Tcs; exact Hr).
   assert (Hdiv : match o, cs with ODiv, [_; b] => is_zero b = false | _, _ => True end).
   { destruct o; try exact Logic.I. destruct cs as [|a' [|b' [|? ?]]]; try exact Logic.I.
@@ -398,3 +767,14 @@ Example fold_example_arith :
   let t := T OLe [T OPlus [T OTimes [TIntC 3; TIntC (-2)]; T ODiv [TIntC 7; TIntC (-2)]]; T OIte [T ONot [TFalse]; TIntC (-9); TIntC 5]] in
   cfrag t = true /\ tc t = Some TBool /\ nodiv0 I0 t /\ simplify_opt no_oracle t = Some TTrue.
 Proof. cbn. repeat split; auto; intros H; discriminate H. Qed.
+
+Example fold_example_bv :
+  let t := T (OBVRel BSlt) [T (OBV BAshr 4) [TBVC 12 4; TBVC 1 4]; T (OBV BSdiv 4) [TBVC 9 4; T (OBV BNot 4) [TBVC 13 4]]] in
+  cfrag t = true /\ tc t = Some TBool /\ nodiv0 I0 t /\ simplify_opt no_oracle t = Some TFalse.
+Proof. cbn. repeat split; auto. Qed.
+
+Example fold_example_bits :
+  let t := T (OBVRel BUle) [T (OBVSext 8 4) [T (OBVExtract 4 2 5) [TBVC 173 8]];
+                            T (OBVZext 8 4) [T (OBVRol 4 1) [T (OBVRor 4 3) [TBVC 11 4]]]] in
+  cfrag t = true /\ tc t = Some TBool /\ nodiv0 I0 t /\ simplify_opt no_oracle t = Some TFalse.
+Proof. cbn. repeat split; auto. Qed.
